@@ -116,7 +116,12 @@ def allTexts (fs : FS) (src : Option Source) : List Str :=
     | some (.lines ls) => ls
     | _ => [])
 
-def inDomainText (s : Str) : Bool := s.all (fun c => inDomainC c || c == '\n')
+/-- no line longer than 1500 characters: an expression of about a thousand operands is as deep a parse tree, which the implementation
+    solves recursively on the host stack and reports as ExceededLimitError (fix 2643731) — where exactly depends on CPython's recursion
+    limit and on how deep the compiler already is, which the model does not represent -/
+def shortLines (s : Str) : Bool := (splitChar '\n' s).all (fun l => l.length ≤ 1500)
+
+def inDomainText (s : Str) : Bool := s.all (fun c => inDomainC c || c == '\n') && shortLines s
 
 partial def treeInDomain : List RawTree → Bool
   | [] => true
